@@ -73,9 +73,15 @@ def _oracle(case, est=None):
     if Xr2.shape != np.asarray(Xr).shape or not np.allclose(Xr2, np.asarray(Xr, dtype=float), rtol=1e-9, atol=1e-9):
         return 'round trip of a DataFrame differs from the round trip of the same data as an array'
     try:
-        return _routes(case, est, X, Xt, Xr)
+        why = _routes(case, est, X, Xt, Xr)
     except Exception as ex:      # the state-only / input-only / episode-flag routes must not raise on valid data either
         return f'lift / retract route raised {type(ex).__name__}: {ex}'
+    if why:
+        return why
+    try:
+        return _buffers(case)
+    except Exception as ex:      # ... nor on an array the caller has used before and refilled
+        return f'call on a re-used, refilled array raised {type(ex).__name__}: {ex}'
 
 
 def gain(spec):
@@ -206,6 +212,225 @@ def _routes(case, est, X, Xt, Xr):
     return _routes_on('[two labelled episodes, episode_feature=True] ', est, X2, True, nx, spec, exact, exact_lift)
 
 
+# ----------------------------------------------------------------------------- the caller's array re-used as a buffer
+# The property speaks about the data matrix that is handed over, i.e. about its contents at the time of the call. A caller
+# may keep ONE preallocated array and refill it in place for every batch (new measurements, a corrected cell, a rescaled
+# column, episodes re-cut or renumbered). Every call on that array must answer for what the array holds NOW: the round trip
+# returns the trailing samples of the current batch and the leading lifted-state columns are the current state. Expected
+# values are copies of the array contents taken by the harness before the call, and own delay arithmetic for the counts.
+
+BUFFER_MODES = ('fill', 'labels', 'fill+labels', 'scale', 'cell', 'column')
+
+
+def _relabel(lab, need, rs):
+    """a new valid episode column for the same rows: renumbered, two labels exchanged, the longest episode cut in two,
+    or two episodes whose rows follow each other merged into one -- every episode keeps >= need samples"""
+    lab = np.asarray(lab, dtype=float)
+    ls = sorted({int(v) for v in lab})
+    new = lab.copy()
+    opts = ['shift']
+    if len(ls) >= 2:
+        opts.append('swap')
+    big = max(ls, key=lambda l: int(np.sum(lab == l)))
+    if int(np.sum(lab == big)) >= 2 * need:
+        opts.append('cut')
+    how = opts[rs.randint(len(opts))]
+    if how == 'shift':
+        new = lab + 1 + rs.randint(3)
+    elif how == 'swap':
+        i = rs.randint(len(ls) - 1)
+        a, b = ls[i], ls[i + 1]
+        new[lab == a] = b
+        new[lab == b] = a
+    else:
+        idx = np.flatnonzero(lab == big)
+        new[idx[idx.shape[0] // 2:]] = max(ls) + 7
+    return new, how
+
+
+def _overwrite(buf, mode, e, need, rs):
+    """change the contents of `buf` IN PLACE (the array object stays the same); data stays inside [-2, 2]"""
+    how = mode
+    if mode in ('fill', 'fill+labels'):
+        buf[:, e:] = rs.uniform(-2.0, 2.0, size=(buf.shape[0], buf.shape[1] - e))
+    if mode == 'scale':
+        buf[:, e:] *= -0.5
+    if mode == 'cell':
+        i, j = rs.randint(buf.shape[0]), e + rs.randint(buf.shape[1] - e)
+        buf[i, j] = buf[i, j] - 1.0 if buf[i, j] > 0 else buf[i, j] + 1.0
+    if mode == 'column':
+        j = e + rs.randint(buf.shape[1] - e)
+        buf[:, j] = rs.uniform(-2.0, 2.0, size=buf.shape[0])
+    if mode in ('labels', 'fill+labels') and e:
+        new, h = _relabel(buf[:, 0], need, rs)
+        buf[:, 0] = new
+        how = f'{mode}:{h}'
+    return how
+
+
+def _current(name, spec, nx, ep, B, L, R, exact):
+    """L = lift of the batch B, R = retract of L: per episode of B (own split), L has n - loss rows whose leading state
+    columns are the trailing state samples of B, and R is the trailing n - loss + gain samples of B"""
+    ks = pipes.kinds_in(spec)
+    L, R = np.asarray(L, dtype=float), np.asarray(R, dtype=float)
+    if L.ndim != 2 or R.ndim != 2 or R.shape[1] != B.shape[1]:
+        return f'{name}: lifted shape {L.shape}, retracted shape {R.shape} for a batch of shape {B.shape}'
+    eps, eps_t, eps_r = st.episodes(B, ep), st.episodes(L, ep), st.episodes(R, ep)
+    if sorted(eps_t) != sorted(eps) or sorted(eps_r) != sorted(eps):
+        return (f'{name}: the array holds episodes {sorted(eps)}, the lifted data has {sorted(eps_t)}, the round trip '
+                f'{sorted(eps_r)}')
+    for l, Xe in eps.items():
+        n = Xe.shape[0]
+        n_lift = n - pipes.loss(spec)
+        r = n_lift + gain(spec)
+        if eps_t[l].shape[0] != n_lift or eps_r[l].shape[0] != r:
+            return (f'{name}: episode {l} has {n} samples now; {eps_t[l].shape[0]} lifted (delays give {n_lift}), '
+                    f'{eps_r[l].shape[0]} retracted (delays give {r})')
+        if not _same(eps_r[l], Xe[n - r:, :], exact):
+            return (f'{name}: episode {l}: the round trip is not the trailing {r} samples of the CURRENT contents '
+                    f'(max err {np.max(np.abs(eps_r[l] - Xe[n - r:, :])) if r else 0:.3g})')
+        if not (ks & {'sk', 'angle'}):
+            if not np.array_equal(eps_t[l][:, :nx], Xe[n - n_lift:, :nx]):
+                return f'{name}: episode {l}: the leading lifted-state columns are not the state the array holds NOW'
+    return None
+
+
+def _buffer_run(name, est, spec, nx, B0, ep, explicit, plan, rs, fit_on_buffer=None):
+    """one array object, refilled in place between calls. `explicit`: go through lift / retract with episode_feature=ep
+    given (it may differ from the fitted flag), else through transform / inverse_transform."""
+    exact = not (pipes.kinds_in(spec) & {'sk', 'angle'})
+    e = 1 if ep else 0
+    need = pipes.loss(spec) + 1
+    buf = np.array(B0, dtype=float, order='C')
+    if fit_on_buffer is not None:
+        est = fit_on_buffer(buf)            # the estimator is fitted on this very array object, too
+    if explicit:
+        lift = lambda A: est.lift(A, episode_feature=ep)
+        retract = lambda A: est.retract(A, episode_feature=ep)
+    else:
+        lift, retract = est.transform, est.inverse_transform
+    B = buf.copy()
+    L = lift(buf)
+    why = _current(f'{name}first call', spec, nx, ep, B, np.array(L, dtype=float), retract(L), exact)
+    if why:
+        return why, est
+    hist = []
+    for mode in plan:
+        B_prev = B
+        hist.append(_overwrite(buf, mode, e, need, rs))
+        B = buf.copy()
+        L = lift(buf)
+        Lc = np.array(L, dtype=float)
+        R = retract(L)
+        tag = f'{name}same array object, contents overwritten in place ({", then ".join(hist)})'
+        why = _current(tag, spec, nx, ep, B, Lc, R, exact)
+        if why:
+            return why, est
+        if mode in ('fill', 'scale', 'cell', 'column') and B_prev.shape == B.shape:
+            # the LIFTED array re-used as a buffer: retracted, refilled with the lift of the current batch, retracted again
+            T = np.array(lift(B_prev.copy()), dtype=float, order='C')
+            if T.shape == Lc.shape:
+                retract(T)
+                T[...] = Lc
+                why = _current(f'{name}lifted array retracted, refilled in place with the lift of the next batch ({hist[-1]}) and '
+                               f'retracted again', spec, nx, ep, B, Lc, retract(T), exact)
+                if why:
+                    return why, est
+                if e:
+                    T[:, 0] += 2
+                    B2 = B.copy()
+                    B2[:, 0] += 2
+                    L2 = Lc.copy()
+                    L2[:, 0] += 2
+                    why = _current(f'{name}lifted array retracted, its episode column renumbered in place, retracted again',
+                                   spec, nx, ep, B2, L2, retract(T), exact)
+                    if why:
+                        return why, est
+    return None, est
+
+
+def _state_buffer(name, est, spec, nx, B0, ep, rs):
+    """lift_state / retract_state on one re-used state array (labels + state columns), refilled in place"""
+    exact = not (pipes.kinds_in(spec) & {'sk', 'angle'})
+    e = 1 if ep else 0
+    sbuf = np.array(np.asarray(B0, dtype=float)[:, :e + nx], dtype=float, order='C')
+    r_of = {l: Xe.shape[0] - pipes.loss(spec) + gain(spec) for l, Xe in st.episodes(sbuf, ep).items()}
+    Ls = est.lift_state(sbuf, episode_feature=ep)
+    est.retract_state(Ls, episode_feature=ep)
+    how = _overwrite(sbuf, 'fill', e, pipes.loss(spec) + 1, rs)
+    S = sbuf.copy()
+    Ls = est.lift_state(sbuf, episode_feature=ep)
+    return _tails(f'{name}retract_state(lift_state(state array overwritten in place: {how}))',
+                  est.retract_state(Ls, episode_feature=ep), S, ep, r_of, exact)
+
+
+def buffer_plan(case, rs):
+    """which in-place changes follow each other on the buffer of this case"""
+    plan = [['fill', 'fill+labels'][rs.randint(2)] if case['ep'] else 'fill']
+    rest = [m for m in BUFFER_MODES if m not in plan and (case['ep'] or 'labels' not in m)]
+    k = 2 if case['ep'] else 1
+    for i in rs.permutation(len(rest))[:k]:
+        plan.append(rest[i])
+    if case['ep'] and not any('labels' in m for m in plan):
+        plan[-1] = 'labels'
+    if rs.randint(2):
+        plan = plan[::-1]
+    return plan
+
+
+def _buf_rs(case):
+    X = np.array(case['rows'], dtype=float)
+    return np.random.RandomState((int(case.get('buf_seed', 0)) + 7919 * X.shape[0] + 31 * X.shape[1]) % (2 ** 31 - 1))
+
+
+def splits_callers_array(spec):
+    """the estimator itself cuts the array it is handed into episodes (a delay stage or a split pipeline, alone or as
+    the first stage of the top-level chain) -- the others hand it on to their stages unchanged or work row by row"""
+    if spec['k'] in ('delay', 'split'):
+        return True
+    return spec['k'] == 'pipe' and bool(spec['ss']) and splits_callers_array(spec['ss'][0])
+
+
+def buffer_tags(case):
+    """coverage categories of the re-used-buffer oracle"""
+    t = ['buffer:all', 'buffer:fitted-' + ('with' if case['ep'] else 'without') + '-episode-feature']
+    for m in buffer_plan(case, _buf_rs(case)):
+        t.append('buffer:overwrite-' + m)
+    if splits_callers_array(case['spec']):
+        t.append('buffer:episode-dependent-at-top-' + ('with' if case['ep'] else 'without') + '-episode-feature')
+    for k in sorted(pipes.kinds_in(case['spec'])):
+        t.append('buffer:kind-' + k)
+    return t
+
+
+def _buffers(case):
+    """the data matrix as a re-used buffer, with the fitted episode flag (transform / inverse_transform and lift / retract)
+    and with the opposite flag (lift / retract), plus the state-only route"""
+    spec, ep, nx, nu = case['spec'], bool(case['ep']), case['nx'], case['nu']
+    X = np.array(case['rows'], dtype=float)
+    rs = _buf_rs(case)
+    plan = buffer_plan(case, rs)
+    why, est = _buffer_run('', None, spec, nx, X, ep, False, plan, rs, fit_on_buffer=lambda b: pipes.fit(spec, b, nu, ep))
+    if why:
+        return why
+    why, _ = _buffer_run('[lift / retract, fitted episode flag given] ', est, spec, nx, X, ep, True, plan[:2], rs)
+    if why:
+        return why
+    if ep:
+        eps = st.episodes(X, True)
+        l = sorted(eps)[len(eps) // 2]
+        other, flag, note = np.array(eps[l]), False, f'[episode {l} alone, episode_feature=False] '
+    else:
+        other, flag, note = st.ref_combine([(3, X), (5, X[::-1, :])], True), True, '[two labelled episodes, episode_feature=True] '
+    oplan = ['fill+labels', 'cell'] if flag else ['fill', 'cell']
+    if rs.randint(2):
+        oplan = oplan[::-1]
+    why, _ = _buffer_run(note, est, spec, nx, other, flag, True, oplan, rs)
+    if why:
+        return why
+    return _state_buffer('', est, spec, nx, X, ep, rs)
+
+
 def probe_unwrap(rng):
     """AnglePreprocessor(unwrap_inverse=True) on several episodes: every episode must still come back
     (angles inside (-pi, pi], any episode count)"""
@@ -257,6 +482,7 @@ def population_search(ctx):
     ended the correspondence run early)"""
     for i in range(400):
         fc = st.gen_case(ctx.rng, KINDS, max_depth=3, cap=40, opaque=True)
+        fc['buf_seed'] = ctx.rng.randint(0, 2 ** 31 - 1)
         why = oracle(fc)
         if why:
             ctx.fail(why, fc, {'kinds': sorted(pipes.kinds_in(fc['spec']))})
@@ -272,7 +498,13 @@ def run(ctx):
                 'other public routes as well: lift / retract, lift_state / retract_state, lift_input / retract_input '
                 'with the fitted episode flag, the default flag and the opposite flag (one unlabelled episode on an '
                 'estimator fitted with labels; the record and its time reversal as two labelled episodes on one '
-                'fitted without)')
+                'fitted without); on every case the caller\'s array re-used as a BUFFER: the estimator is fitted on, and then '
+                'repeatedly called with, ONE float64 array object whose contents are overwritten in place between the calls '
+                '(all data refilled, one column, one cell, rescaled; episode column renumbered / two labels exchanged / '
+                'longest episode cut in two; both at once), through transform / inverse_transform, through lift / retract '
+                'with the fitted and with the opposite episode flag, through lift_state / retract_state on a re-used state '
+                'array, and with the LIFTED array re-used (retracted, refilled with the lift of the next batch or '
+                'renumbered, retracted again)')
     ctx.explanation = ('theorems C01_* (suffix-stable round trip through the whole tree); correspondence on '
                        'inverse_transform(transform(X)) and on the leading state columns of transform(X); '
                        'oracle: the round trip evaluated directly on real estimators with float data; '
@@ -280,7 +512,11 @@ def run(ctx):
                        'samples of the original state / input columns themselves, as many as the delay arithmetic '
                        'of the pipeline (loss max(dx,du), rebuilt min(dx,du), split = smaller branch) gives and as '
                        'inverse_transform(transform(X)) returns; lift_state / lift_input must be the leading / '
-                       'trailing blocks of lift(X)')
+                       'trailing blocks of lift(X); re-used buffer: after every in-place change the harness copies the '
+                       'array, and the call on the SAME object must answer for that copy - episodes = the labels the array '
+                       'holds now (own split), lifted rows n - loss, leading lifted-state columns = the current trailing '
+                       'state samples, round trip = the current trailing n - loss + gain samples (exact; 1e-9 with scaler / '
+                       'angle stages); nothing remembered from an earlier call on the same object may show through')
     ctx.proof_obligations('Properties.C01', THEOREMS)
     drv = ctx.get_driver()
     cases = []
@@ -325,9 +561,10 @@ def run(ctx):
             ctx.mismatch('leading state columns of transform(X): ' + why, c, None, None)
             bad.append(c)
         fc = st.float_case(ctx.rng, c)
+        fc['buf_seed'] = ctx.rng.randint(0, 2 ** 31 - 1)
         why = oracle(fc)
         if angle_ok(fc['spec']):
-            for t in route_tags(fc):
+            for t in route_tags(fc) + buffer_tags(fc):
                 ctx.count(t)
         if why:
             small = st.shrink(fc, lambda x: _valid(x) and oracle(x))
@@ -343,6 +580,7 @@ def run(ctx):
         for c in bad[:40]:
             for _ in range(3):
                 fc = st.float_case(ctx.rng, c)
+                fc['buf_seed'] = ctx.rng.randint(0, 2 ** 31 - 1)
                 why = oracle(fc)
                 if why:
                     ctx.fail(why, fc, {'kinds': sorted(pipes.kinds_in(c['spec']))})
